@@ -43,7 +43,19 @@ def check_rules_section(rep, ctx):
     if len(gs) != 1:
         raise Inconclusive("loop_poll: expected one get_status call, found %d" % len(gs))
     # pin the rule-dump branch (logging only) to keep the slice small
-    paths = eng.explore(body, start_bb=gs[0], stop_calls=r"KeyStatus::get_secure_channel_state$|AuthorizationRulesForLogging::new$|(^|::)get_status$" + PRE)
+    # the section ends where the state handling begins: at get_secure_channel_state ONCE the three rule-id updates have been made (the
+    # getter is pure; a version that computes the state text earlier still has its rule handling examined)
+    def section_end(engine, ev):
+        begins_next = (ev.kind == "call" and ev.callee.endswith("KeyStatus::get_secure_channel_state")) or \
+            (ev.kind == "streq" and any(isinstance(origin(x), StrV) and origin(x).e.as_string() == "disabled" for x in ev.rargs)) or \
+            (ev.kind in ("call", "await") and re.search(r"get_current_key_guid$|(^|::)acquire_key$", ev.callee))
+        if begins_next:
+            ups = [e for e in engine.events if e.kind == "await" and re.search(r"update_(wireserver|imds|hostga)_rule_id$", e.callee)]
+            if len({e.callee.split("::")[-1] for e in ups}) >= 3:
+                # the third endpoint's block is complete once its decision was taken: stop at the first event of the next section
+                raise EndPath("stop", "reached the state / key handling after the rule handling")
+    eng.event_hook = section_end
+    paths = eng.explore(body, start_bb=gs[0], stop_calls=r"AuthorizationRulesForLogging::new$|(^|::)get_status$" + PRE)
     rep.functions_encoded.append(body + " [rules section: from get_status to get_secure_channel_state]")
     n_err = n_upd = 0
     for i, r in enumerate(paths):
@@ -174,10 +186,28 @@ def _is_local_state(r, v):
 def check_key_trigger(rep, ctx):
     eng, paths = p_c08.key_section(ctx, rep)
     n = 0
+    kidx = ctx.field("KeyStatus", "keyGuid")
+    n_idle = 0
     for i, r in enumerate(paths):
         ev = r.events
         ops = [e for e in ev if (e.kind == "await" and re.search(r"(acquire_key|attest_key|update_key)$", e.callee)) or (e.kind == "call" and e.callee.endswith("read_to_string"))]
         if not ops:
+            # the other direction: with the channel not disabled and the host naming NO latched key (or a key other than the one held) the
+            # step must go for a key - "the key used is the one the host names as latched", so a held key the host no longer names is not kept
+            if r.status not in ("return", "stop", "cut") or not ev or not ev[0].callee.endswith("get_secure_channel_state"):
+                continue
+            st = origin(ev[0].rargs[0])
+            isn = [e for e in ev if e.kind == "call" and e.callee.endswith("Option::is_none")]
+            kg = origin(isn[0].rargs[0]) if isn and isinstance(origin(isn[0].rargs[0]), Sym) and is_part_of(origin(isn[0].rargs[0]), st) else st.child(("f", kidx))
+            dis = [c for c in ev if c.kind == "streq" and any(isinstance(origin(x), StrV) and origin(x).e.as_string() == "disabled" for x in c.rargs)]
+            not_disabled = z3.Not(dis[-1].extra) if dis else z3.Bool("c09_not_disabled_%d" % i)
+            ne = [e for e in ev if e.kind == "call" and re.search(r"Option<.*String.*> as PartialEq>::(ne|eq)$", e.callee) and any(same_origin(x, kg) for x in e.rargs)]
+            differs = [(ne[-1].ret.scalar("bool") if ne[-1].callee.endswith("ne") else z3.Not(ne[-1].ret.scalar("bool")))] if ne else []
+            must = z3.And(not_disabled, z3.Or([kg.discr() == 0] + differs))
+            rs, _m, _dt, _zm = check_sat(r.pc + [z3.Or(kg.discr() == 0, kg.discr() == 1), must])
+            n_idle += 1
+            rep.add(Query("key section path %d: no key work only when the channel is disabled or the host names the key that is held" % i, "holds" if rs == "unsat" else "violated",
+                          "the step does nothing although the channel is enabled and the host names no key / another key (%s)" % rs if rs != "unsat" else "", 0, "mirsym+z3", key="C09.key-trigger-sufficient", reproduced=None))
             continue
         n += 1
         first = ev.index(ops[0])
@@ -201,6 +231,7 @@ def check_key_trigger(rep, ctx):
             okops = any(derives(x, gk[-1].ret, ev) for x in ne[-1].rargs) if gk else False
             rep.add(Query("key section path %d: the comparison is between the document's keyGuid and the guid of the key in memory" % i, "holds" if okops else "violated", "", 0, "mirsym", key="C09.key-compare-operands", reproduced=None))
     rep.add(Query("witness: key section paths doing key work", "witness-hit" if n else "witness-missed", "%d" % n, 0, "mirsym"))
+    rep.add(Query("witness: key section paths doing no key work", "witness-hit" if n_idle else "witness-missed", "%d" % n_idle, 0, "mirsym"))
 
 
 def check_wrappers(rep, ctx):
